@@ -960,7 +960,16 @@ def run_boolop_e2e(ck, report):
 # (c) DIFFERENTIAL TESTING (never an obligation): grammar-generated constant programs
 # ----------------------------------------------------------------------------
 
-DIFF_DEFS = """class P:
+DIFF_DEFS = """# module globals with the names of closure variables / parameters used below: a free variable of a closure
+# resolves to the enclosing function's cell, never to these (CPython's LEGB order)
+n = 1000 + %(k6)d
+total = 5000
+f = None
+g = None
+start = 31
+
+
+class P:
     _c10_tag = 'P'
 
     def __init__(self, v, w=%(k0)d):
